@@ -508,15 +508,16 @@ def spacing_and_literal_obligations(P):
             ann = str(p.annotation)
             if "float" not in ann or p.kind == p.POSITIONAL_ONLY or kind != "stmt":
                 continue
-            lit = FLOAT_PROBE.get(p.name, 62.5)
             others = [q for q in params if q is not p and q.default is inspect._empty]
             args = []
             for q in others:
                 v = LITERAL_PROBES.get((cls, meth, q.name), (None,))[0] or str(HOST_VALUES.get(q.name, 3 + names.index(q.name)) if not isinstance(HOST_VALUES.get(q.name), str) else repr(HOST_VALUES[q.name]))
                 args.append(f"{q.name}={v}" if q.kind != q.POSITIONAL_ONLY else v)
-            call_lit = f"dev.{meth}(" + ", ".join(args + [f"{p.name}={lit}"]) + ")"
-            call_var = f"dev.{meth}(" + ", ".join(args + [f"{p.name}=zzv"]) + ")"
-            LITVAR_JOBS.append((f"{label}/{p.name}", base_src + call_lit + "\n", base_src + f"zzv = {lit}\n" + call_var + "\n"))
+            # a non-integer value and zero (a falsy constant must not be mistaken for "argument omitted")
+            for tag, lit in (("", FLOAT_PROBE.get(p.name, 62.5)), ("/zero", 0)):
+                call_lit = f"dev.{meth}(" + ", ".join(args + [f"{p.name}={lit}"]) + ")"
+                call_var = f"dev.{meth}(" + ", ".join(args + [f"{p.name}=zzv"]) + ")"
+                LITVAR_JOBS.append((f"{label}/{p.name}{tag}", base_src + call_lit + "\n", base_src + f"zzv = {lit}\n" + call_var + "\n"))
     return out
 
 
